@@ -551,16 +551,18 @@ is_default_constructible(CPPVisibility min_vis) const {
       return false;
     }
 
-    return true;
+    // NB: if it's defaulted, it may still be deleted.
+    if ((constructor->_storage_class & CPPInstance::SC_defaulted) == 0) {
+      return true;
+    }
   }
 
-  // Does it have constructors at all?  If so, no implicit one is generated.
-  if (get_constructor() != nullptr) {
+  // Does it have other constructors?  If so, no implicit one is generated.
+  if (constructor == nullptr && get_constructor() != nullptr) {
     return false;
   }
 
-  // Implicit default constructor.  Check if the implicit default constructor
-  // is deleted.
+  // Implicit or defaulted default constructor.  Check if it is deleted.
   Derivation::const_iterator di;
   for (di = _derivation.begin(); di != _derivation.end(); ++di) {
     CPPStructType *base = (*di)._base->as_struct_type();
@@ -638,11 +640,15 @@ is_copy_constructible(CPPVisibility min_vis) const {
       return false;
     }
 
-    return true;
+    // NB: if it's defaulted, it may still be deleted.
+    if ((constructor->_storage_class & CPPInstance::SC_defaulted) == 0) {
+      return true;
+    }
   }
 
-  if (get_move_constructor() != nullptr ||
-      get_move_assignment_operator() != nullptr) {
+  if (constructor == nullptr &&
+      (get_move_constructor() != nullptr ||
+       get_move_assignment_operator() != nullptr)) {
     // A user-declared move constructor or move assignment operator means that
     // the implicitly-declared copy constructor is deleted.
     return false;
@@ -829,7 +835,10 @@ is_destructible(CPPVisibility min_vis) const {
       return false;
     }
 
-    return true;
+    // NB: if it's defaulted, it may still be deleted.
+    if ((destructor->_storage_class & CPPInstance::SC_defaulted) == 0) {
+      return true;
+    }
   }
 
   // Make sure all base classes are destructible.
